@@ -210,8 +210,85 @@ def lean_pieces(ws):
                            for w in ws) + ']'
 
 
+PARSER_MODULES = ['keyvaluepairs', 'argskwargs', 'dict', 'list', 'string', 'keys', 'json']
+
+
+def parser_returns(repo: Path):
+    """For each built-in context parser: where every `return` of `get_parsed_context` takes its value from -
+    'none' (return None), 'new' (an object built by this call: display, comprehension, call, or a local bound to
+    such), 'param' (the argument itself), 'module:<name>' (an object that lives at module level and is
+    therefore shared by all calls - in a value position: dict keys and called functions do not count)."""
+    out = []
+    for short in PARSER_MODULES:
+        tree = ast.parse((repo / 'pypyr' / 'parser' / f'{short}.py').read_text())
+        fn = next((n for n in tree.body if isinstance(n, ast.FunctionDef) and n.name == 'get_parsed_context'), None)
+        if fn is None:
+            out.append((short, ['missing']))
+            continue
+        params = {a.arg for a in fn.args.args + fn.args.kwonlyargs}
+        assigns = {}
+        for n in ast.walk(fn):
+            tgts, val = [], None
+            if isinstance(n, ast.Assign):
+                tgts, val = n.targets, n.value
+            elif isinstance(n, ast.AnnAssign) and n.value is not None:
+                tgts, val = [n.target], n.value
+            elif isinstance(n, (ast.For, ast.comprehension)):
+                tgts, val = [n.target], None
+            for t in tgts:
+                for nm in ast.walk(t):
+                    if isinstance(nm, ast.Name):
+                        assigns.setdefault(nm.id, []).append(val)
+
+        def value_names(e):
+            """Names in value positions of e (not dict keys, not the callee of a call, not comprehension-bound)"""
+            if isinstance(e, ast.Name):
+                return [e.id]
+            if isinstance(e, ast.Dict):
+                return [x for v in e.values for x in value_names(v)]
+            if isinstance(e, ast.Call):
+                return []           # a call builds / returns what it likes; its result is not a module-level NAME
+            if isinstance(e, (ast.DictComp, ast.ListComp, ast.SetComp, ast.GeneratorExp)):
+                return []
+            if isinstance(e, (ast.List, ast.Tuple, ast.Set)):
+                return [x for v in e.elts for x in value_names(v)]
+            if isinstance(e, ast.Constant) or e is None:
+                return []
+            if isinstance(e, (ast.Attribute, ast.Subscript)):
+                return value_names(e.value)
+            if isinstance(e, ast.IfExp):
+                return value_names(e.body) + value_names(e.orelse)
+            if isinstance(e, ast.BoolOp):
+                return [x for v in e.values for x in value_names(v)]
+            return ['?' + type(e).__name__]
+
+        def classify(e, depth=0):
+            if e is None or (isinstance(e, ast.Constant) and e.value is None):
+                return 'none'
+            worst = 'new'
+            for nm in value_names(e):
+                if nm.startswith('?'):
+                    return 'unknown:' + nm[1:]
+                if nm in params:
+                    if isinstance(e, ast.Name):
+                        worst = 'param'
+                    continue
+                if nm in assigns and depth < 4:
+                    for v in assigns[nm]:
+                        c = classify(v, depth + 1) if v is not None else 'new'
+                        if c.startswith(('module:', 'unknown:')):
+                            return c
+                    continue
+                return 'module:' + nm
+            return worst
+        rets = [classify(n.value) for n in sorted((n for n in ast.walk(fn) if isinstance(n, ast.Return)), key=lambda n: n.lineno)]
+        out.append((short, rets))
+    return out
+
+
 def render(repo: Path) -> str:
     d = describe(repo)
+    pr = parser_returns(repo)
     lines = [
         '/- GENERATED by harness/extract_c18.py from pypyr/cli.py and pypyr/__main__.py — do not edit. -/',
         'namespace Pypyr.Generated.CliMain',
@@ -240,6 +317,10 @@ def render(repo: Path) -> str:
         '',
         '/-- `pypyr/__main__.py`: what its `main` returns and what runs under `__name__ == "__main__"`. -/',
         'def entryPoint : List String := [' + ', '.join(lean_str(e) for e in d['entry']) + ']',
+        '',
+        '/-- Every `return` of each built-in parser\'s `get_parsed_context`: none / new (built by the call) / param / module:<name>. -/',
+        'def parserReturns : List (String × List String) :=\n  [' + ',\n   '.join(
+            f'({lean_str(n)}, [' + ', '.join(lean_str(r) for r in rs) + '])' for n, rs in pr) + ']',
         '',
         'end Pypyr.Generated.CliMain',
         '']
